@@ -23,7 +23,7 @@ func (c16) Runs(tier string) int {
 	return 160
 }
 func (c16) Rule() string {
-	return "per run a template tree (layout, components, pages that succeed / fail at run time, optional custom error page, debug on/off, custom functions) is generated and loaded on the simulated disk; an operation alphabet {String, Response (healthy / failing writer), EvaluateString, EvaluateFile (present / missing / EIO)} x {succeeding, failing, unknown name} is derived from it. Every fourth run sweeps ALL ordered pairs of the alphabet (exhaustive for length 2 on that tree), the others run seeded random histories of length 3..12. Oracle: each operation's observation equals the observation of the same operation issued first after a fresh reset + identical setup; caller data deep-equal to a private copy; after the history every page re-renders to its baseline. evaluations = operations executed inside histories. distinct_nontrivial = distinct histories (content hash) of length >= 2 that contain a failing operation or a string/file evaluation before a template render."
+	return "per run a template tree (layout, components, pages that succeed / fail at run time, optional custom error page, debug on/off, custom functions) is generated and loaded on the simulated disk; an operation alphabet {String, Response (healthy / failing writer), EvaluateString, EvaluateFile (present / missing / EIO)} x {succeeding, failing, unknown name} is derived from it. Every fourth run sweeps the ordered pairs of the alphabet (ALL of them in the thorough tier: exhaustive for length 2 on that tree; a seeded 22% sample in the quick tier), the others run seeded random histories of length 3..12 (one in ten followed by 40 repetitions of two operations). Oracle: each operation's observation equals the observation of the same operation issued first after a fresh reset + identical setup; caller data deep-equal to a private copy; after the history every page re-renders to its baseline. evaluations = operations executed inside histories. distinct_nontrivial = distinct histories (content hash) of length >= 2 that contain a failing operation or a string/file evaluation before a template render."
 }
 func (c16) Assumptions() []string {
 	return []string{
@@ -95,6 +95,40 @@ func treeAlphabet(r *Rng, t *Tree, extra []File) []Op {
 		Op{Kind: "evalstr", Src: "@each(x in nums){{ 100 / x }},@end", Data: mk([]string{"nums"}, Val{T: "ints", A: []Val{VInt(4), VInt(0)}})},
 		Op{Kind: "evalstr", Src: "@each(x in nums){{ 100 / x }},@end", Data: mk([]string{"nums"}, Val{T: "ints", A: []Val{VInt(1), VInt(2)}})},
 	)
+	// the same page with other VALUES (a cache keyed by name only, a frozen "static" page)
+	vd := &Val{T: d.T, K: append([]string{}, d.K...)}
+	for i, k := range d.K {
+		v := d.V[i]
+		switch k {
+		case "n1", "n2":
+			v = VInt(int(v.I) + 17)
+		case "s0", "s1":
+			v = VStr(v.S + "~v")
+		case "b0":
+			v = VBool(!v.B)
+		}
+		vd.V = append(vd.V, v)
+	}
+	for i, p := range t.Pages {
+		if i < 3 {
+			ops = append(ops, Op{Kind: "string", Name: p, Data: vd})
+		}
+	}
+	ops = append(ops,
+		Op{Kind: "string", Name: "argonly", Data: d}, Op{Kind: "string", Name: "argonly", Data: vd}, Op{Kind: "string", Name: "argonly", Data: nil},
+		Op{Kind: "string", Name: "constarr", Data: d}, Op{Kind: "string", Name: "constarr", Data: vd},
+		Op{Kind: "string", Name: "twofuncs", Data: d}, Op{Kind: "string", Name: "twofuncs", Data: vd},
+		Op{Kind: "string", Name: "sitepage", Data: &Val{T: "map", K: []string{"site"}, V: []Val{{T: "sharedptr", I: 0}}}},
+		Op{Kind: "response", Name: "sitepage", Data: &Val{T: "map", K: []string{"site"}, V: []Val{{T: "sharedptr", I: 0}}}},
+		Op{Kind: "evalstr", Src: "{{ site.name }}/{{ site.year }}", Data: &Val{T: "map", K: []string{"site"}, V: []Val{{T: "sharedptr", I: 0}}}},
+	)
+	// EvaluateFile on pages that use a layout / components (as a string they cannot link them)
+	for i, p := range t.Pages {
+		if i < 2 {
+			ops = append(ops, Op{Kind: "evalfile", Name: t.path(p), Data: d})
+		}
+	}
+	ops = append(ops, Op{Kind: "evalfile", Name: t.path("comppage"), Data: &Val{T: "map", K: []string{"den", "top"}, V: []Val{VInt(1), VInt(1)}}})
 	// one component used twice in a page with different slot content
 	ops = append(ops, Op{Kind: "string", Name: "twocards", Data: d}, Op{Kind: "response", Name: "twocards", Data: d})
 	// data-less calls that assign top-level variables (a shared root scope would leak them)
@@ -143,6 +177,11 @@ func genC16Tree(r *Rng) (*Scenario, *Tree, []Op) {
 		File{Path: t.path("dotpage"), Data: "<p>{{ user.name }}/{{ user.age }}</p>", Role: "page"},
 		File{Path: t.path("rowpage"), Data: "<p>{{ r.num }}:{{ r.title }}</p>", Role: "page"},
 		File{Path: t.path("twocards"), Data: "@component(\"components/card\", {title: \"A\", n: 1})\n@slot<p>first {{ n1 }}</p>@end\n@slot(\"foot\")<i>f1</i>@end\n@end\n<hr>\n@component(\"components/card\", {title: \"B\", n: 2})\n@slot<p>second {{ s0 }}</p>@end\n@slot(\"foot\")<i>f2</i>@end\n@end\n", Role: "page"},
+		File{Path: t.path("layouts/plainlay"), Data: "<html><title>@reserve(\"title\")</title>@reserve(\"content\")</html>", Role: "layout"},
+		File{Path: t.path("argonly"), Data: "@use(\"layouts/plainlay\")\n@insert(\"title\", s0 + \" | Site\")\n@insert(\"content\")<p>static</p>@end", Role: "page"},
+		File{Path: t.path("constarr"), Data: "{{ xs = [\"s\", \"m\", \"l\"].append(s0) }}@each(x in xs)[{{ x }}]@end{{ [1, 2, 3, 4, 5].append(n1) }}|{{ [7, 8, 9].prepend(n1) }}", Role: "page"},
+		File{Path: t.path("twofuncs"), Data: "@for(i = 0; i < 3; i++){{ s0.shout(i) }}{{ b0.flip() }}{{ [1, 2, 3].rev() }}{{ s0.shout(1) }};@end", Role: "page"},
+		File{Path: t.path("sitepage"), Data: "<h1>{{ site.name }}</h1>{{ site.year }} {{ site.links }}", Role: "page"},
 		File{Path: t.path("assigner"), Data: "{{ title = \"Oops\" }}{{ count = 7 }}<i>{{ title }}</i>", Role: "page"},
 		File{Path: t.path("reader"), Data: "<u>{{ title }}{{ count }}</u>", Role: "page"},
 		File{Path: t.path("floaty"), Data: "@for(f = 2.0; f > 0.0; f--)[{{ f }}]@end{{ base = 9.5 }}{{ base-- }}|{{ n = 3 }}{{ n++ }}|{{ g = 1.5 }}{{ g++ }}", Role: "page"},
@@ -366,6 +405,10 @@ func (p c16) Run(seed uint64, run int, tier string, acc *Acc) *Violation {
 		seen := map[string]bool{}
 		for _, a := range alpha {
 			for _, b := range alpha {
+				if tier != "thorough" && !r.Chance(22) {
+					continue // quick tier: a seeded ~22% sample of the ordered pairs; thorough: all of them
+				}
+				acc.Probe("pairs-executed", 1)
 				if v := check([]Op{a, b}); v != nil && !seen[v.Sig] {
 					seen[v.Sig] = true
 					if first == nil {
